@@ -400,8 +400,10 @@ func xtalkInstances(tier string) []Instance {
 	}
 	// a node's error must reach a call at most once as well: the fault family of C07 in which the request is
 	// still queued when the stream breaks and the receiver is held up by a slow streaming consumer
+	// ... and the instances in which a connection fault strikes one node of two at any instant of the call
 	for _, in := range faultInstances(tier) {
-		if strings.Contains(in.Name, "-queued") {
+		if strings.Contains(in.Name, "-queued") ||
+			(strings.Contains(in.Name, "/n=2/failing=[2]/") && !strings.Contains(in.Name, "/err-") && !strings.Contains(in.Name, "/down/") && strings.Contains(in.Name, "thr=healthy+1")) {
 			out = append(out, in)
 		}
 	}
@@ -413,7 +415,7 @@ func xtalkInstances(tier string) []Instance {
 
 func init() {
 	register(&Check{ID: "C05",
-		Rule:        "two (three in thorough) concurrent client threads on one manager with 3 nodes: every ordered pair over {quorum call, async, correctable, correctable stream, RPC, multicast} on equal or overlapping configurations ({1,2} vs {1,2} / {2,3}), with and without a cancel event for the first call, plus back-to-back calls of one thread concurrent with another thread (thresholds 1 and 2); every handler releases early and is gated individually, and the script opens the gates and fires the cancel in every order at quiescent points (so replies arrive after their call returned or was cancelled); all schedules within the deviation bound; plus the queued-request fault family of C07 (error delivered at most once per node); plus a stalled-sender family (call A completes on node 1 while its request to node 2 waits in the send buffer behind a stalled sender, the same goroutine then issues call B needing both nodes, then the server reads again; send buffer {1,2}); oracle: every reply shown to a quorum function or returned carries the observer's own call token and the node id it is filed under, at most one reply per node and call, nothing observed after return, one message id per call; an outcome is (instance, event order)",
+		Rule:        "two (three in thorough) concurrent client threads on one manager with 3 nodes: every ordered pair over {quorum call, async, correctable, correctable stream, RPC, multicast} on equal or overlapping configurations ({1,2} vs {1,2} / {2,3}), with and without a cancel event for the first call, plus back-to-back calls of one thread concurrent with another thread (thresholds 1 and 2); every handler releases early and is gated individually, and the script opens the gates and fires the cancel in every order at quiescent points (so replies arrive after their call returned or was cancelled); all schedules within the deviation bound; plus the fault families of C07 in which a connection fault strikes one node of two (also while the request is still queued): a node's error is delivered at most once as well; plus a stalled-sender family (call A completes on node 1 while its request to node 2 waits in the send buffer behind a stalled sender, the same goroutine then issues call B needing both nodes, then the server reads again; send buffer {1,2}); oracle: every reply shown to a quorum function or returned carries the observer's own call token and the node id it is filed under, at most one reply per node and call, nothing observed after return, one message id per call; an outcome is (instance, event order)",
 		Gen:         xtalkInstances,
 		Assumptions: []string{"puppet servers stamp every reply with (call token, node, sequence); transport is the fakegrpc model"},
 	})
